@@ -661,3 +661,158 @@ func loopCarried(p *Prog, v ssa.Value, l *Loop, use ssa.Instruction) string {
 	}
 	return walk(v, 0)
 }
+
+// workerFuncs: fn, its closures, and the methods of the same receiver type (with their closures)
+// that fn reaches through static calls — the functions that together make up one worker loop when
+// parts of it were extracted into helpers.
+func workerFuncs(p *Prog, fn *ssa.Function) []*ssa.Function {
+	var out []*ssa.Function
+	seen := map[*ssa.Function]bool{}
+	var add func(f *ssa.Function)
+	add = func(f *ssa.Function) {
+		if seen[f] {
+			return
+		}
+		seen[f] = true
+		out = append(out, f)
+		for _, a := range Anons(f) {
+			add(a)
+		}
+		for _, e := range p.CG().Out[f] {
+			g := e.Callee
+			if g == nil || e.Dyn || e.Kind == EdgeRef || g.Blocks == nil || fnPkg(g) != fnPkg(fn) {
+				continue
+			}
+			if g.Signature.Recv() == nil || fn.Signature.Recv() == nil || !types.Identical(g.Signature.Recv().Type(), fn.Signature.Recv().Type()) {
+				continue
+			}
+			add(g)
+		}
+	}
+	add(fn)
+	return out
+}
+
+// inlineSameRecv: expand local closures and helper methods of fn's own receiver type.
+func inlineSameRecv(fn *ssa.Function) func(*ssa.Function) bool {
+	return func(g *ssa.Function) bool {
+		if g.Parent() != nil {
+			return true
+		}
+		// method value `f := x.method`: the synthetic wrapper that calls the method with its bound receiver
+		if strings.HasPrefix(g.Synthetic, "bound method wrapper") {
+			return true
+		}
+		return g != fn && g.Signature.Recv() != nil && fn.Signature.Recv() != nil && types.Identical(g.Signature.Recv().Type(), fn.Signature.Recv().Type())
+	}
+}
+
+// valueLeaves: the values that can flow into v through phis, single-assignment locals and the
+// results of module helpers (their return operands), up to a small depth.
+func valueLeaves(v ssa.Value, depth int) []ssa.Value {
+	seen := map[ssa.Value]bool{}
+	var out []ssa.Value
+	var walk func(v ssa.Value, d int)
+	walk = func(v ssa.Value, d int) {
+		if v == nil || seen[v] {
+			return
+		}
+		seen[v] = true
+		if d > depth {
+			out = append(out, v)
+			return
+		}
+		switch x := v.(type) {
+		case *ssa.Phi:
+			for _, e := range x.Edges {
+				walk(e, d+1)
+			}
+			return
+		case *ssa.UnOp:
+			if al, ok := x.X.(*ssa.Alloc); ok && x.Op == token.MUL {
+				n := 0
+				for _, r := range *al.Referrers() {
+					if st, ok := r.(*ssa.Store); ok && st.Addr == ssa.Value(al) {
+						n++
+						walk(st.Val, d+1)
+					}
+				}
+				if n > 0 {
+					return
+				}
+			}
+		case *ssa.Extract, *ssa.Call:
+			if call, idx, ok := helperResult(v); ok {
+				g := call.Call.StaticCallee()
+				n := 0
+				allInstrs(g, func(in ssa.Instruction) {
+					if r, ok := in.(*ssa.Return); ok && idx < len(r.Results) {
+						n++
+						walk(r.Results[idx], d+1)
+					}
+				})
+				if n > 0 {
+					return
+				}
+			}
+		}
+		out = append(out, v)
+	}
+	walk(v, 0)
+	return out
+}
+
+// incompleteLiterals finds composite literals of the named struct type (a local struct variable
+// that is built field by field, without first being assigned a whole value) that do not set every
+// field of the struct. It returns, per literal, the missing field names.
+func incompleteLiterals(p *Prog, named *types.Named) map[ssa.Instruction][]string {
+	out := map[ssa.Instruction][]string{}
+	st, ok := named.Underlying().(*types.Struct)
+	if !ok {
+		return out
+	}
+	for _, fn := range p.Funcs {
+		allInstrs(fn, func(in ssa.Instruction) {
+			al, ok := in.(*ssa.Alloc)
+			if !ok {
+				return
+			}
+			pt, ok := al.Type().(*types.Pointer)
+			if !ok || !types.Identical(pt.Elem(), named) {
+				return
+			}
+			set := map[int]bool{}
+			whole := false
+			nField := 0
+			for _, r := range *al.Referrers() {
+				switch x := r.(type) {
+				case *ssa.Store:
+					if x.Addr == ssa.Value(al) {
+						whole = true
+					}
+				case *ssa.FieldAddr:
+					for _, rr := range *x.Referrers() {
+						if s, ok := rr.(*ssa.Store); ok && s.Addr == ssa.Value(x) {
+							set[x.Field] = true
+							nField++
+						}
+					}
+				}
+			}
+			// a literal: built from field stores only (a zero value that is never filled is not a config copy)
+			if whole || nField == 0 || al.Comment != "complit" {
+				return
+			}
+			var missing []string
+			for i := 0; i < st.NumFields(); i++ {
+				if !set[i] {
+					missing = append(missing, st.Field(i).Name())
+				}
+			}
+			if len(missing) > 0 {
+				out[in] = missing
+			}
+		})
+	}
+	return out
+}
